@@ -3,7 +3,10 @@
 R01.1  dispatch exhaustiveness: every integer numeric encoding has an enumerator, reaches an emitter and the
        opcode type tables agree with the specification signature
 R01.2  stack effect and result slot of every template
-R01.3  semantic descriptor of the typed template equals the specification row
+R01.3  semantic descriptor of the typed template equals the specification row; independently, the typed expression is evaluated
+       exactly (C semantics per node type, traps as outcomes, undefined behaviour detected) on a grid of boundary operands against
+       reference semantics of the instruction - for an accepted row as a second decision, for a shape the descriptors do not
+       recognise as the refutation engine (disagreement = violation with its witness, agreement = not decided)
 R01.4  trap plumbing (TRAP -> trap(enumerator); distinct codes)
 """
 from .. import astdb, pe, emit, oracle, templates, ctyperules as ct, semrules as sr
